@@ -291,6 +291,29 @@ static int op_tls_random(void)
 	g_oo->valid = 1;
 	return 1;
 }
+static int op_rand_sizes(void)
+{
+	/* rand_bytes() over the lengths around its documented limit: up to the limit it fills the whole buffer or fails;
+	 * above it, it either refuses or — if it reports success — has written every byte it was asked for */
+	static const size_t lens[] = { 1, 32, 255, 256, 257, 300, 512, 600 };
+	uint8_t a[608], b[608];
+	g_oo->valid = 1;
+	for (int i = 0; i < 8; i++) {
+		size_t L = lens[i];
+		memset(a, 0x5c, sizeof(a)); memset(b, 0xa3, sizeof(b));
+		int ret = rand_bytes(a, L);
+		if (ret != 1) { if (L <= 256) return 0; continue; }
+		if (a[L] != 0x5c) g_oo->valid = 0;                               /* wrote past the request */
+		if (L >= 32) eph_add(a, 32);
+		if (L >= 64) eph_add(a + L - 32, 32);
+		out_add(a, L);
+		if (L > 256) {
+			if (rand_bytes(b, L) != 1) continue;
+			for (size_t k = 0; k < L; k++) if (a[k] == 0x5c && b[k] == 0xa3) g_oo->valid = 0;   /* a byte neither call wrote */
+		}
+	}
+	return 1;
+}
 static int op_pms(void)
 {
 	uint8_t pms[48];
@@ -415,6 +438,7 @@ static const OpDef g_ops[] = {
 	{ "sm9_encrypt", op_sm9_encrypt, 1, 1 }, { "sm9_exch_step_1A", op_sm9_exch, 1, 1 },
 	{ "sm9_exch_step_1B", op_sm9_exch_1b, 1, 1 }, { "sm9_enc_master_key_generate", op_sm9_enc_keygen, 1, 1 },
 	{ "pkcs8_encrypt_pem", op_pkcs8_pem, 0, 1 },
+	{ "rand_bytes_sizes", op_rand_sizes, 0, 0 },
 };
 #define NOPS ((int)(sizeof(g_ops) / sizeof(g_ops[0])))
 
@@ -447,7 +471,7 @@ static void op_exec(const Plan *p, uint64_t ent, int count, int64_t efail_at, in
 	net_reset(); mon_reset(); cap_reset();
 	rng_seed(&g_sim.nodes[0].ent, ent, 0xc11e);
 	g_sim.nodes[0].efail_at = efail_at; g_sim.nodes[0].efail_rest = efail_rest; g_sim.nodes[0].efail_errno = (int)p->efail_errno;
-	g_sim.nodes[0].eburst_at = eburst_at; g_sim.nodes[0].eburst_k = eburst_k; g_sim.nodes[0].eburst_val = (uint8_t)eburst_val;
+	g_sim.nodes[0].eburst_at = eburst_at; g_sim.nodes[0].eburst_k = eburst_k; g_sim.nodes[0].eburst_val = eburst_val;
 	g_sim.on_switch = mon_on_switch;
 	memset(&g_or, 0, sizeof(g_or));
 	g_or.op = (int)p->op; g_or.count = count;
@@ -476,7 +500,7 @@ static int ephref_cmp(const void *pa, const void *pb)
 /* ------------------------------------------------------------- generation */
 enum { EM_FAIL = 0, EM_BURST = 1, EM_PAIR = 2, EM_HISTORY = 3 };   /* stored in plan.defect */
 
-static struct { uint64_t key; uint64_t ndraws[2]; int ok; } g_etwin;
+static struct { uint64_t key; uint64_t ndraws[2]; int ok, bad_success; } g_etwin;
 
 static uint64_t eplan_key(const Plan *p)
 {
@@ -496,6 +520,7 @@ static void etwin(const Plan *p)
 		op_exec(p, (uint64_t)p->ent_c, 1, -1, 0, -1, 0, 0);
 		g_etwin.ndraws[0] = g_or.draws; g_etwin.ndraws[1] = 0;
 		g_etwin.ok = g_or.nout == 1 && g_or.out[0].status == 1 && g_or.out[0].valid;
+		g_etwin.bad_success = g_or.nout == 1 && g_or.out[0].status == 1 && !g_or.out[0].valid;
 	} else {
 		static HonestOut o; static Plan q;
 		q = *p;
@@ -503,7 +528,7 @@ static void etwin(const Plan *p)
 		conn_run(&q, creds_get((int)q.depth, q.proto == P_TLCP), &o, NULL, NULL);
 		RunResult rr; memset(&rr, 0, sizeof(rr));
 		honest_oracle(&q, &o, &rr);
-		g_etwin.ok = !rr.violated;
+		g_etwin.ok = !rr.violated; g_etwin.bad_success = 0;
 		g_etwin.ndraws[0] = g_sim.nodes[0].draws; g_etwin.ndraws[1] = g_sim.nodes[1].draws;
 	}
 }
@@ -564,6 +589,8 @@ static void entropy_gen(Plan *p, uint64_t base_seed, uint64_t variant, int tier)
 		/* all-zero draws drive the "scalar must not be zero" retry; not for SM9, whose master-key generation accepts 0 and
 		 * later trips an assert (recorded in 12.2, outside the property) */
 		if (!(p->op && g_ops[p->op].sm9) && rng_chance(&v, 1, 3)) p->eburst_val = 0x00;
+		/* the boundary of the range itself: a draw equal to the group order n, or to n-1 (a private key lives in [1, n-2]) */
+		else if (!(p->op && g_ops[p->op].sm9) && rng_chance(&v, 1, 3)) { p->eburst_val = 256 + rng_below(&v, 4); if (p->eburst_k > 3) p->eburst_k = 1 + rng_below(&v, 3); }
 	}
 }
 
@@ -675,8 +702,16 @@ static void entropy_run(const Plan *p, RunResult *r)
 		p->op >= 0 && p->op < NOPS ? g_ops[p->op].name : "?", p->op ? "-" : g_proto_names[p->proto], (int)p->mutual, (int)p->efail_node,
 		(long long)(p->defect == EM_BURST ? p->eburst_at : p->efail_at), (int)p->efail_rest,
 		(unsigned long long)g_etwin.ndraws[0], (unsigned long long)g_etwin.ndraws[1]);
-	if (!g_etwin.ok) { r->twin_failed = 1; return; }
 	if (p->op < 0 || p->op >= NOPS) { r->twin_failed = 1; return; }
+	if (!g_etwin.ok) {
+		r->twin_failed = 1;
+		/* no fault at all, success reported, and what came out is not valid (does not verify, or was never filled) */
+		if (p->op && g_etwin.bad_success) {
+			r->twin_failed = 0; r->nontrivial = 1;
+			rr_violation(r, "entropy_op_failed", "%s reported success without any fault but its output is not valid", g_ops[p->op].name);
+		}
+		return;
+	}
 
 	if (p->op) {
 		const char *opn = g_ops[p->op].name;
@@ -749,6 +784,10 @@ static void entropy_run(const Plan *p, RunResult *r)
 		r->nontrivial = n->efail_fired;
 		r->fault_id = hash_bytes(0x917, (int64_t[]){ p->op, p->efail_at, p->efail_rest }, 24);
 		r->nontrivial_id = r->fault_id;
+		if (!n->efail_fired && g_or.nout >= 1 && g_or.out[0].status == 1 && !g_or.out[0].valid) {
+			rr_violation(r, "entropy_op_failed", "%s reported success without any fault but its output is not valid", opn);
+			return;
+		}
 		/* whatever the operation emitted before/after the failed draw must not repeat an ephemeral value,
 		 * and everything it emitted must verify */
 		if (n->efail_fired && g_or.nout >= 1) {
